@@ -150,7 +150,7 @@ PROPS = {
                        "base.rs are proved to examine their arguments left to right and to return the conjunction of the adjacent pairs; "
                        "max / min are proved to be the left fold of a binary step that is proved (lemma_maxmin_step) to return the "
                        "numerically extreme operand, exact iff both operands are exact.",
-        "unverified": ["the eqv? builtin's dispatch over Values (its numeric arm calls the proved exact_eqv)",
+        "unverified": ["identity of list cells in eqv? (std::ptr::eq, no contract)",
                        "rule X4': the chains are verified at Vec<Value<R>>; production passes a SmallVec (same sequence of items)"],
         "assumptions": ["R's == and partial_cmp are functions of their operands (obeys_eq_spec / obeys_partial_cmp_spec)"],
     },
